@@ -51,7 +51,9 @@ PostK1(f, i, o) ==
         i.n > 0 /\ o.hi = ZShr(ZMul(i.a, i.b), W * i.n)
      [] f = "mpn_sqr" ->
         \* mpn/generic/mul_n.c mpn_sqr: ASSERT (n >= 1), {p,2n} does not overlap {a,n}; p = a^2 (all 2n limbs).
-        i.n >= 1 /\ o.r = ZMul(i.a, i.a) /\ (("b" \in DOMAIN i) => i.b = i.a)
+        \* (drv_c01.c logs the same routine with fields a, an, b = a, bn: both forms are decided here)
+        /\ (("n" \in DOMAIN i) => i.n >= 1) /\ (("b" \in DOMAIN i) => i.b = i.a)
+        /\ o.r = ZMul(i.a, i.a)
      [] f \in {"mpn_mulmid_basecase", "mpn_mulmid"} ->
         \* mulmid_basecase.c: "This function computes MP(up,un,vp,vn), writing the result to {rp,un-vn+3}. Must have un >= vn >= 1."
         \* mulmid.c: "This function computes MP(ap,an,bp,bn), placing the result in {rp, an-bn+3}."; ASSERT (an >= bn); ASSERT (bn >= 1).
